@@ -34,9 +34,12 @@ Record oquirks := {
   q_consts_in_processing_order : bool; (* duplicate-constant messages list the other locations in processing order *)
   q_ignore_parser_reused : bool;       (* a new Linter/Orchestrator for the same root gets the process-wide ignore parser of an
                                           earlier one (get_ignore_parser singleton): patterns and decisions of the earlier object *)
-  q_api_file_no_finalize : bool        (* Linter.lint(file) calls lint_file: no finalize, no cross-file findings (C10) *)
+  q_api_file_no_finalize : bool;       (* Linter.lint(file) calls lint_file: no finalize, no cross-file findings (C10) *)
+  q_dry_config_sticky : bool;          (* DRYRule keeps the first configuration it saw (`self._config = self._config or config`, never reset):
+                                          after the object's configuration is reloaded its reports still use the old one *)
+  q_fp_config_sticky : bool            (* FilePlacementRule._linter_cache: the linter built from the first configuration seen for a root is reused *)
 }.
-Definition ideal : oquirks := Build_oquirks false false false false false.
+Definition ideal : oquirks := Build_oquirks false false false false false false false.
 
 (* ---------- canonical order of file versions (insertion sort, lexicographic) ---------- *)
 Definition fv_leb (a b : fv) : bool := (fst a <? fst b) || ((fst a =? fst b) && (snd a <=? snd b)).
@@ -68,9 +71,20 @@ Record ostate := {
   dry_aux : list fv;       (* DRYRule._constants, _file_contents and the inline-ignore ranges: files checked since the last finalize *)
   st_ev : list fv;         (* StringlyTypedRule._storage *)
   ppats : option content;  (* IgnoreDirectiveParser.repo_patterns: the version of the ignore file loaded when the parser was built *)
-  icache : list (path * bool)   (* IgnoreDirectiveParser._ignore_cache *)
+  icache : list (path * bool);  (* IgnoreDirectiveParser._ignore_cache *)
+  ocfg : option content;   (* Orchestrator.config: the version of the configuration file the object holds (read at construction / reload) *)
+  dry_cfg0 : option (option content);   (* DRYRule._config: the configuration of the first file it ever checked *)
+  fp_cfg0 : option (option content)     (* FilePlacementRule._linter_cache[root]: the configuration of the first file it ever checked *)
 }.
-Definition init_st (pp : option content) : ostate := Build_ostate [] [] [] pp [].
+Definition init_st (pp oc : option content) : ostate := Build_ostate [] [] [] pp [] oc None None.
+
+(* a file version as the rules see it: the content together with the configuration in force when it was checked *)
+Definition cfg_key (k : option content) : nat := match k with None => 0 | Some c => S c end.
+Definition enc (c : content) (k : option content) : content := c * 8 + cfg_key k.
+Definition view (sticky : bool) (first : option (option content)) (cur : option content) : option content :=
+  if sticky then match first with Some k => k | None => cur end else cur.
+Definition first_seen (first : option (option content)) (cur : option content) : option (option content) :=
+  match first with None => Some cur | x => x end.
 
 Inductive target := TFile (p : path) | TDir (d : nat) (listing : list path).
 
@@ -82,7 +96,8 @@ Inductive op :=
 | Edit (p : path) (c : content)
 | Delete (p : path)
 | Add (p : path) (c : content)
-| NewLinter.      (* the embedding process drops its Linter and builds a new one for the same project root *)
+| NewLinter       (* the embedding process drops its Linter and builds a new one for the same project root *)
+| ReloadConfig.   (* the embedding process re-reads the configuration file into the live object (orchestrator.config = ...) *)
 
 (* one step's output, by origin *)
 Record out (V : Type) := { o_pf : list V; o_blocks : list V; o_consts : list V; o_st : list V }.
@@ -92,37 +107,47 @@ Definition out_nil {V} : out V := Build_out [] [] [] [].
 
 Section Orch.
   Variable V : Type.
-  Variable perfile : path -> option content -> list V.
-  Variable rep_blocks : list fv -> list fv -> list V.
-  Variable rep_consts rep_st : list fv -> list V.
+  Variable perfile : path -> option content -> list V.      (* every rule but file-placement; version = enc content configuration *)
+  Variable perfile_fp : path -> option content -> list V.   (* the file-placement rule *)
+  Variable rep_blocks : option content -> list fv -> list fv -> list V.   (* first argument: the configuration DRYRule.finalize uses *)
+  Variable rep_consts : option content -> list fv -> list V.
+  Variable rep_st : list fv -> list V.
   Variable hard_excl : path -> bool.
   Variable ignored : option content -> path -> bool.   (* patterns of that version of the ignore file match the path *)
   Variable ign_path : path.                            (* the ignore file itself *)
+  Variable cfg_path : path.                            (* the configuration file *)
   Variable in_dir : nat -> path -> bool.
 
   Definition cached_ignored (pp : option content) (ic : list (path * bool)) (p : path) : bool * list (path * bool) :=
     match passoc p ic with Some b => (b, ic) | None => (ignored pp p, (p, ignored pp p) :: ic) end.
 
-  Definition set_icache (st : ostate) ic := Build_ostate (dry_rows st) (dry_aux st) (st_ev st) (ppats st) ic.
-  Definition mk_init (fs : fsys) : ostate := init_st (fs_get fs ign_path).
+  Definition set_icache (st : ostate) ic :=
+    Build_ostate (dry_rows st) (dry_aux st) (st_ev st) (ppats st) ic (ocfg st) (dry_cfg0 st) (fp_cfg0 st).
+  Definition mk_init (fs : fsys) : ostate := init_st (fs_get fs ign_path) (fs_get fs cfg_path).
+  Definition fp_view (q : oquirks) (st : ostate) : option content := view (q_fp_config_sticky q) (fp_cfg0 st) (ocfg st).
+  Definition dry_view (q : oquirks) (st : ostate) : option content := view (q_dry_config_sticky q) (dry_cfg0 st) (ocfg st).
+  (* the rules have looked at a file: DRYRule and FilePlacementRule remember the configuration of their first file *)
+  Definition checked (st : ostate) (rows aux sev : list fv) (ic : list (path * bool)) : ostate :=
+    Build_ostate rows aux sev (ppats st) ic (ocfg st) (first_seen (dry_cfg0 st) (ocfg st)) (first_seen (fp_cfg0 st) (ocfg st)).
 
   (* Orchestrator.lint_file: guards in source order, then every rule's check() *)
-  Definition lint_file1 (fs : fsys) (st : ostate) (p : path) : ostate * list V :=
+  Definition lint_file1 (q : oquirks) (fs : fsys) (st : ostate) (p : path) : ostate * list V :=
     if smem "_is_hardcoded_excluded" lint_file_guards && hard_excl p then (st, [])
     else
       let '(ig, ic) := if smem "is_ignored" lint_file_guards then cached_ignored (ppats st) (icache st) p else (false, icache st) in
       if ig then (set_icache st ic, [])
       else match fs_get fs p with
-           | None => (set_icache st ic, perfile p None)
-           | Some c => (Build_ostate (dry_rows st ++ [(p, c)]) (dry_aux st ++ [(p, c)]) (st_ev st ++ [(p, c)]) (ppats st) ic,
-                        perfile p (Some c))
+           | None => (checked st (dry_rows st) (dry_aux st) (st_ev st) ic, perfile p None ++ perfile_fp p None)
+           | Some c => let v := (p, enc c (ocfg st)) in
+                       (checked st (dry_rows st ++ [v]) (dry_aux st ++ [v]) (st_ev st ++ [v]) ic,
+                        perfile p (Some (enc c (ocfg st))) ++ perfile_fp p (Some (enc c (fp_view q st))))
            end.
 
-  Fixpoint lint_each (fs : fsys) (st : ostate) (ps : list path) : ostate * list V :=
+  Fixpoint lint_each (q : oquirks) (fs : fsys) (st : ostate) (ps : list path) : ostate * list V :=
     match ps with
     | [] => (st, [])
-    | p :: r => let '(s1, o1) := lint_file1 fs st p in
-                let '(s2, o2) := lint_each fs s1 r in (s2, o1 ++ o2)
+    | p :: r => let '(s1, o1) := lint_file1 q fs st p in
+                let '(s2, o2) := lint_each q fs s1 r in (s2, o1 ++ o2)
     end.
 
   Definition consts_view (q : oquirks) (l : list fv) : list fv :=
@@ -133,19 +158,19 @@ Section Orch.
     (Build_ostate (if smem "_storage" (dry_resets q) then [] else dry_rows st)
                   (if aux_cleared q then [] else dry_aux st)
                   (if st_clears then [] else st_ev st)
-                  (ppats st) (icache st),
-     Build_out [] (rep_blocks (dry_rows st) (dry_aux st)) (rep_consts (consts_view q (dry_aux st))) (rep_st (st_ev st))).
+                  (ppats st) (icache st) (ocfg st) (dry_cfg0 st) (fp_cfg0 st),
+     Build_out [] (rep_blocks (dry_view q st) (dry_rows st) (dry_aux st)) (rep_consts (dry_view q st) (consts_view q (dry_aux st))) (rep_st (st_ev st))).
 
   Definition with_pf (pf : list V) (o : out V) : out V := Build_out (pf ++ o_pf o) (o_blocks o) (o_consts o) (o_st o).
 
   (* an entry point: per-file loop, then the finalize loop when the source has one *)
   Definition run_entry (q : oquirks) (entry : string) (fs : fsys) (st : ostate) (ps : list path) : ostate * out V :=
-    let '(s1, pf) := lint_each fs st ps in
+    let '(s1, pf) := lint_each q fs st ps in
     if finalizes entry then let '(s2, o) := finalize q s1 in (s2, with_pf pf o)
     else (s1, Build_out pf [] [] []).
 
   Definition keep_evidence (old new : ostate) : ostate :=
-    Build_ostate (dry_rows old) (dry_aux old) (st_ev old) (ppats new) (icache new).
+    Build_ostate (dry_rows old) (dry_aux old) (st_ev old) (ppats new) (icache new) (ocfg new) (dry_cfg0 new) (fp_cfg0 new).
 
   (* a bare single-file call *)
   Definition run_single (q : oquirks) (entry : string) (fs : fsys) (st : ostate) (p : path) : ostate * out V :=
@@ -173,7 +198,9 @@ Section Orch.
     | Add p c => ((st, fs_set fs p c), out_nil)
     | NewLinter =>
         (* new rule objects; the ignore parser is the process-wide one of the previous object, or a newly built one *)
-        ((if q_ignore_parser_reused q then Build_ostate [] [] [] (ppats st) (icache st) else mk_init fs, fs), out_nil)
+        ((if q_ignore_parser_reused q then Build_ostate [] [] [] (ppats st) (icache st) (fs_get fs cfg_path) None None else mk_init fs, fs), out_nil)
+    | ReloadConfig =>
+        ((Build_ostate (dry_rows st) (dry_aux st) (st_ev st) (ppats st) (icache st) (fs_get fs cfg_path) (dry_cfg0 st) (fp_cfg0 st), fs), out_nil)
     end.
 
   Fixpoint run (q : oquirks) (w : ostate * fsys) (h : list op) : (ostate * fsys) * list (out V) :=
